@@ -102,7 +102,7 @@ def explain_expr(viol):
     (Trace_Expr with the as-is deviations on) reproduce?  -> set of indexes"""
     if not viol:
         return set()
-    evs = [{"toks": list(t), "obs": {"kind": "exc", "n": 0, "d": 1, "close": False, "syntax": False}} for t, _ in viol]
+    evs = [{"toks": list(t), "obs": {"kind": "exc", "n": 0, "d": 1, "close": False}} for t, _ in viol]
     with Scratch("c05e-") as d:
         tf = d / "trace.json"
         tf.write_text(json.dumps({"events": evs}))
@@ -185,7 +185,7 @@ def run_b(o: Outcome, tier: str) -> None:
         if i in explained:
             o.classify(rec, why, ["ExprNoExceptionBarrier"], cls=cls)
         else:
-            o.violation(rec, why + " (not reproduced by the as-is model)", cls=cls + "-unexplained")
+            o.violation(rec, why + " (the as-is model does not predict this one)", cls=cls)
 
     # ---------------- G: every parser function x argument vectors x titles
     common.use_repo()
